@@ -24,9 +24,12 @@ fn run_stream(input: &Value, salt: u64) -> Value {
     let wchunk = if salt % 2 == 0 { 5 } else { 65536 };
     let rt = runtime();
     rt.block_on(async move {
-        let mut s = StreamSession::new(num(cfg, "rt"), num(cfg, "idle"), wchunk);
+        let (mut s, eff) = match StreamSession::with_conf(&cfg["conf"], wchunk) {
+            Some(x) => x,
+            None => return json!({"bad_conf": cfg["conf"]}),
+        };
         s.settle().await;
-        let mut obs = vec![];
+        let mut obs: Vec<Value> = vec![];
         for (i, op) in ops.iter().enumerate() {
             match op["op"].as_str().unwrap_or("") {
                 "submit" => s.submit(num(op, "r"), num(op, "q")),
@@ -44,7 +47,11 @@ fn run_stream(input: &Value, salt: u64) -> Value {
                 _ => return json!({"bad_op": op}),
             }
             s.settle().await;
-            obs.push(s.projection(nreq));
+            let mut p = s.projection(nreq);
+            if obs.is_empty() {
+                p["eff"] = eff.clone();
+            }
+            obs.push(p);
         }
         Value::Array(obs)
     })
@@ -73,7 +80,10 @@ fn try_dgram(input: &Value) -> Option<Value> {
                 _ => {}
             }
         }
-        let conn = dgram_conn(&net, num(cfg, "rd"), num(cfg, "retries") as u8, 100);
+        let (conn, eff) = match dgram_conn(&net, &cfg["conf"]) {
+            Some(x) => x,
+            None => return Some(json!({"bad_conf": cfg["conf"]})),
+        };
         let comp: Completions = Arc::new(Mutex::new(vec![]));
         let mut clock = Clock::new();
         let mut hang = false;
@@ -129,7 +139,7 @@ fn try_dgram(input: &Value) -> Option<Value> {
             }
             let sent: Vec<Value> = (0..net.nsocks())
                 .map(|i| match net.sent(i).first() {
-                    Some(d) => abstract_request(d)["q"].clone(),
+                    Some(d) => abstract_dgram_request(d),
                     None => json!(-1),
                 })
                 .collect();
@@ -154,7 +164,7 @@ fn try_dgram(input: &Value) -> Option<Value> {
             if t_done < 0 && !done.is_empty() {
                 t_done = (clock.ticks() - t_submit) as i64;
             }
-            let mut p = json!({"sent": sent, "done": done, "waiting": waiting, "t": t_done});
+            let mut p = json!({"sent": sent, "done": done, "waiting": waiting, "t": t_done, "eff": eff});
             if hang {
                 p["hang"] = json!(true);
             }
@@ -196,13 +206,17 @@ fn run_multi(input: &Value) -> Value {
     rt.block_on(async move {
         let act = Activity::default();
         let connector = StreamConnector::new(&act);
-        let mut mcfg = multi_stream::Config::from(quiet_stream_config());
-        mcfg.set_response_timeout(tick * (num(cfg, "rt") as u32));
-        let (conn, transport) =
-            multi_stream::Connection::<domain::net::client::request::RequestMessage<Vec<u8>>>::with_config(
-                connector.clone(),
-                mcfg,
-            );
+        let mcfg = match ms_config(&cfg["conf"]) {
+            Some(c) => c,
+            None => return json!({"bad_conf": cfg["conf"]}),
+        };
+        let eff = ms_eff(&mcfg);
+        type Req = domain::net::client::request::RequestMessage<Vec<u8>>;
+        let (conn, transport) = if cfg["conf"]["route"] == "conn_new" {
+            multi_stream::Connection::<Req>::new(connector.clone())
+        } else {
+            multi_stream::Connection::<Req>::with_config(connector.clone(), mcfg)
+        };
         tokio::spawn(counted(transport.run(), &act));
         let comp: Completions = Arc::new(Mutex::new(vec![]));
         let mut clock = Clock::new();
@@ -268,7 +282,7 @@ fn run_multi(input: &Value) -> Value {
                 }
                 done[r - 1].push(json!({"ok": o.get("ok").is_some(), "t": t_done[r]}));
             }
-            let mut p = json!({"nconnect": connector.calls(), "written": written, "done": done});
+            let mut p = json!({"nconnect": connector.calls(), "written": written, "done": done, "eff": eff});
             if dup {
                 p["written_twice"] = json!(true);
             }
@@ -289,7 +303,7 @@ fn run_multi(input: &Value) -> Value {
 fn try_dgst(input: &Value) -> Option<Value> {
     use domain::base::Message;
     use domain::net::client::request::SendRequest;
-    use domain::net::client::{dgram_stream, multi_stream};
+    use domain::net::client::dgram_stream;
     use std::sync::{Arc, Mutex};
     let cfg = &input["cfg"];
     let ops = input["ops"].as_array().cloned().unwrap_or_default();
@@ -298,16 +312,17 @@ fn try_dgst(input: &Value) -> Option<Value> {
         let act = Activity::default();
         let net = DgramNet::new(&act);
         let connector = StreamConnector::new(&act);
-        let mut dcfg = domain::net::client::dgram::Config::new();
-        dcfg.set_read_timeout(TICK * (num(cfg, "rd") as u32));
-        dcfg.set_max_retries(num(cfg, "retries") as u8);
-        let mut mcfg = multi_stream::Config::from(quiet_stream_config());
-        mcfg.set_response_timeout(TICK * (num(cfg, "rt") as u32));
-        let xcfg = dgram_stream::Config::from_parts(dcfg, mcfg);
-        let (conn, transport) = dgram_stream::Connection::<
-            DgramNet,
-            domain::net::client::request::RequestMessage<Vec<u8>>,
-        >::with_config(net.clone(), connector.clone(), xcfg);
+        let xcfg = match x_config(&cfg["conf"]) {
+            Some(c) => c,
+            None => return Some(json!({"bad_conf": cfg["conf"]})),
+        };
+        let eff = x_eff(&xcfg);
+        type Req = domain::net::client::request::RequestMessage<Vec<u8>>;
+        let (conn, transport) = if cfg["conf"]["route"] == "conn_new" {
+            dgram_stream::Connection::<DgramNet, Req>::new(net.clone(), connector.clone())
+        } else {
+            dgram_stream::Connection::<DgramNet, Req>::with_config(net.clone(), connector.clone(), xcfg)
+        };
         tokio::spawn(counted(transport.run(), &act));
         let comp: Completions = Arc::new(Mutex::new(vec![]));
         let mut clock = Clock::new();
@@ -382,7 +397,7 @@ fn try_dgst(input: &Value) -> Option<Value> {
             }
             let udp: Vec<Value> = (0..net.nsocks())
                 .map(|i| match net.sent(i).first() {
-                    Some(d) => abstract_request(d)["q"].clone(),
+                    Some(d) => abstract_dgram_request(d),
                     None => json!(-1),
                 })
                 .collect();
@@ -405,7 +420,8 @@ fn try_dgst(input: &Value) -> Option<Value> {
                                    "tc": false, "rcode": 0, "t": t_done}),
                 });
             }
-            let mut p = json!({"udp": udp, "nconnect": connector.calls(), "written": written, "done": done});
+            let mut p = json!({"udp": udp, "nconnect": connector.calls(), "written": written, "done": done,
+                               "eff": eff});
             if hang {
                 p["hang"] = json!(true);
             }
@@ -427,6 +443,23 @@ fn run_dgst(input: &Value) -> Value {
     json!({"id_collision_every_time": true})
 }
 
+/// A configuration object on its own: the calls one by one, what the
+/// getters say after each.
+fn run_config(input: &Value) -> Value {
+    let mut obj = match CfgObj::make(input["obj"].as_str().unwrap_or(""), input["route"].as_str().unwrap_or("")) {
+        Some(o) => o,
+        None => return json!({"bad_obj": input["obj"]}),
+    };
+    let mut obs = vec![];
+    for k in input["calls"].as_array().cloned().unwrap_or_default() {
+        if !obj.call(&k) {
+            return json!({"bad_call": k});
+        }
+        obs.push(obj.eff());
+    }
+    Value::Array(obs)
+}
+
 fn main() {
     if !freeze_clock() {
         println!("TOOLERROR clock interposition does not work on this platform");
@@ -440,6 +473,7 @@ fn main() {
             Some("dgram") => run_dgram(input),
             Some("multi") => run_multi(input),
             Some("dgst") => run_dgst(input),
+            Some("config") => run_config(input),
             _ => json!({"bad_case": true}),
         }
     });
